@@ -90,3 +90,30 @@ num_int = num_unit('XdlEncoder_number_int', r'^void XdlEncoder::new_number\(int 
 
 from units.C06 import json_escapes
 UNITS += [num_double, num_float, num_int, json_escapes]
+
+# Xdl::read / Json::read: the byte-order-mark probe at the start of the file
+bom_probe = Unit(
+    'Xdl_read_bom_probe', 'C05',
+    cuts=[Cut('bp', X, r'(byte bom\[3\];\s*if\s*\([^\n]*\n\s*tfile\.seek\(0\);)', kind='expr',
+              rules=[(r'tfile\.read\(bom, 3\)', 'F_READ(bom, 3)', None), (r'tfile\.seek\(0\);', 'g_pos = 0;', None)])],
+    text=r'''
+#include "vf_base.h"
+int nondet_int(void);
+byte g_file[3]; int g_size, g_pos;
+/* TextFile::read(p, n) = fread: delivers min(n, bytes left) bytes and advances the position */
+static int F_READ(byte* p, int n) { int r = g_size - g_pos < n ? g_size - g_pos : n; for (int i = 0; i < r; i++) p[i] = g_file[g_pos + i]; g_pos += r; return r; }
+void bom_probe(void)
+__CPROVER_requires(1 <= g_size && g_size <= 100000 && g_pos == 0)
+/* only a complete UTF-8 byte-order mark is skipped: for every other file (also files of 1 or 2 bytes) parsing starts at offset 0 */
+__CPROVER_ensures(g_pos == ((g_size >= 3 && g_file[0] == 0xef && g_file[1] == 0xbb && g_file[2] == 0xbf) ? 3 : 0))
+__CPROVER_assigns(g_pos)
+{
+  @@bp@@
+}
+void vf_harness(void) { bom_probe(); VF_CANARY(); }
+''',
+    entry='bom_probe', unwind=5,
+    desc='Xdl::read / Json::read: for a file of ANY size >= 1 and any first bytes, exactly a complete UTF-8 BOM is skipped, otherwise reading starts at offset 0 (1- and 2-byte files included)',
+    functions=['Xdl::read (BOM probe)'], trusted=['TextFile::read = fread, seek(0)'],
+)
+UNITS += [bom_probe]
